@@ -1,6 +1,113 @@
 import TantivyModel.Driver.Proto
+import TantivyModel.Model.Bm25
+/-!
+Line protocol of the C12 model; floats travel as the decimal value of their IEEE-754 single bit
+pattern.
+
+* `term <N> <tokens> <n> <fieldnorm_id> <tf> <boost bits>` →
+  `score explain idf weight norm maxscore` (bit patterns)
+* `tree <N> <tokens> <rpn>` → `score explain` of a query tree (one matching document), RPN items
+  separated by `,`: `t.<n>.<fid>.<tf>` | `p.<n1>+<n2>….<fid>.<count>` | `b.<bits>` | `c.<bits>` | `s.<k>` | `d.<k>.<tie bits>`
+* `fn <id>` → `id_to_fieldnorm`; `fnid <fieldnorm>` → `fieldnorm_to_id`
+* `corpus <term> <segmentation> <seg> <doc> <boost bits>` → `N tokens n fid tf score`;
+  segmentation: segments `|`, documents `,`, token ids `.`, empty document `-`
+-/
 namespace TantivyModel.Driver.C12
-/-- stub: the model for C12 is not built yet -/
+open TantivyModel TantivyModel.Proto TantivyModel.Bm25
+
+def fbits (x : Float32) : String := toString x.toBits.toNat
+def ofBits? (s : String) : Option Float32 :=
+  s.toNat?.bind fun n => if n < 4294967296 then some (Float32.ofBits (UInt32.ofNat n)) else none
+
+abbrev T := QTree Float32
+
+def popN (k : Nat) (st : List T) : Option (List T × List T) :=
+  if k ≤ st.length then some ((st.take k).reverse, st.drop k) else none
+
+/-- stack machine for the RPN encoding (stack head = last pushed) -/
+def rpnStep (st : List T) (item : String) : Option (List T) :=
+  match item.splitOn "." with
+  | ["t", n, fid, tf] =>
+    match n.toNat?, fid.toNat?, tf.toNat? with
+    | some n, some fid, some tf => if fid < 256 then some (.term n fid tf :: st) else none
+    | _, _, _ => none
+  | ["p", dfs, fid, cnt] =>
+    -- phrase leaf: doc freqs of the terms joined by `+`
+    match (dfs.splitOn "+").mapM (·.toNat?), fid.toNat?, cnt.toNat? with
+    | some ns, some fid, some c => if fid < 256 then some (.phrase ns fid c :: st) else none
+    | _, _, _ => none
+  | ["b", bits] =>
+    match ofBits? bits, st with
+    | some b, q :: rest => some (.boost q b :: rest)
+    | _, _ => none
+  | ["c", bits] =>
+    match ofBits? bits, st with
+    | some c, q :: rest => some (.const q c :: rest)
+    | _, _ => none
+  | ["s", k] =>
+    match k.toNat? with
+    | some k => (popN k st).map fun (qs, rest) => .sum qs :: rest
+    | none => none
+  | ["d", k, bits] =>
+    match k.toNat?, ofBits? bits with
+    | some k, some tie => (popN k st).map fun (qs, rest) => .dismax qs tie :: rest
+    | _, _ => none
+  | _ => none
+
+def parseTree (s : String) : Option T :=
+  match (s.splitOn ",").foldlM rpnStep [] with
+  | some [q] => some q
+  | _ => none
+
+def parseDoc (s : String) : Option Doc :=
+  if s == "-" then some [] else (s.splitOn ".").mapM (·.toNat?)
+
+def parseSegs (s : String) : Option (List (List Doc)) :=
+  (s.splitOn "|").mapM fun seg => if seg == "" then some [] else (seg.splitOn ",").mapM parseDoc
+
 def handle : List String → String
+  | ["term", nDocs, tokens, n, fid, tf, boost] =>
+    match nDocs.toNat?, tokens.toNat?, n.toNat?, fid.toNat?, tf.toNat?, ofBits? boost with
+    | some nDocs, some tokens, some n, some fid, some tf, some b =>
+      if fid < 256 ∧ n ≤ nDocs ∧ 0 < nDocs then
+        let s : Stats := { numDocs := nDocs, numTokens := tokens }
+        " ".intercalate [
+          fbits (termScore s n fid tf b),
+          fbits (explainValue s (.boost (.term n fid tf) b : T)),
+          fbits (idf n nDocs : Float32),
+          fbits (weight s n b),
+          fbits (cachedTfComponent (idToFieldnorm fid) (avgFieldnorm s : Float32)),
+          fbits (maxScore s n b)]
+      else "bad-op"
+    | _, _, _, _, _, _ => "bad-op"
+  | ["tree", nDocs, tokens, rpn] =>
+    match nDocs.toNat?, tokens.toNat?, parseTree rpn with
+    | some nDocs, some tokens, some q =>
+      if 0 < nDocs then
+        let s : Stats := { numDocs := nDocs, numTokens := tokens }
+        fbits (score s q one) ++ " " ++ fbits (explainValue s q)
+      else "bad-op"
+    | _, _, _ => "bad-op"
+  | ["fn", id] =>
+    match id.toNat? with
+    | some id => if id < 256 then toString (idToFieldnorm id) else "bad-op"
+    | none => "bad-op"
+  | ["fnid", f] =>
+    match f.toNat? with
+    | some f => toString (fieldnormToId f)
+    | none => "bad-op"
+  | ["corpus", term, segs, si, di, boost] =>
+    match term.toNat?, parseSegs segs, si.toNat?, di.toNat?, ofBits? boost with
+    | some t, some segs, some si, some di, some b =>
+      match (segs[si]?).bind (·[di]?) with
+      | some d =>
+        let s := statsOf segs
+        if 0 < s.numDocs then
+          " ".intercalate [toString s.numDocs, toString s.numTokens, toString (docFreqOf segs t),
+            toString (fieldnormIdOf d), toString (tfOf d t), fbits (termScoreIn segs t d b)]
+        else "bad-op"
+      | none => "bad-op"
+    | _, _, _, _, _ => "bad-op"
   | _ => "bad-op"
+
 end TantivyModel.Driver.C12
